@@ -127,7 +127,7 @@ def sx_max(*args, **kw):
     if len(args) == 1:
         args = tuple(args[0])
     if kw or not any(is_sym(a) for a in args):
-        return builtins.max(*args, **kw)
+        return builtins.max(args, **kw)
     r = args[0]
     for a in args[1:]:
         r = _sel(r >= a, r, a)
@@ -138,7 +138,7 @@ def sx_min(*args, **kw):
     if len(args) == 1:
         args = tuple(args[0])
     if kw or not any(is_sym(a) for a in args):
-        return builtins.min(*args, **kw)
+        return builtins.min(args, **kw)
     r = args[0]
     for a in args[1:]:
         r = _sel(r <= a, r, a)
